@@ -476,8 +476,10 @@ func failingCompressorProbe(c *Ctx) {
 				}
 				return connect.CodeOf(err).String() + ": " + err.Error()
 			})
-			if !strings.HasPrefix(got, "internal:") || !strings.Contains(got, "compressor out of order") {
-				c.Fail("neg-failed-compression-undecodable", desc, got, "the handler's compression failure must reach the client as the internal error it is; a response whose labels do not match its bytes cannot be decoded by the peer")
+			// (which code the failure is reported with is not this property's business; that the peer
+			// can decode the report is)
+			if got == "ok" || !strings.Contains(got, "compressor out of order") {
+				c.Fail("neg-failed-compression-undecodable", desc, got, "the handler's report of its compression failure must be decodable by the peer; a response whose encoding labels do not match its bytes is not")
 			}
 		}
 	}
